@@ -1,72 +1,81 @@
 /-
-  Aho-Corasick automaton CONSTRUCTION (libyara/ahocorasick.c, modelled function by function in Model/AcBuild.lean;
-  used by C01 and C05, and through the shared automaton by every string property).
+  Aho-Corasick automaton CONSTRUCTION (libyara/ahocorasick.c, modelled function by function in Model/AcBuild.lean) and the
+  scan loop of scanner.c `_yr_scanner_scan_mem_block` (Model/AcScan.lean `scan`); used by C01, C05 and, through the shared
+  automaton, by every string property.
 
-  What is proved, for EVERY list of atoms (any bytes, any lengths ≥ 1, any number < 2^32, duplicates allowed, in any
-  insertion order) and EVERY buffer: scanning with the tables the model builds — trie insertion, BFS failure links with
-  match-list inheritance, failure-link optimisation, first-fit packing with table growth — reports exactly the
-  occurrences of the atoms (`build_sound`). No per-rule-set certificate is involved: `build_cert` establishes the
-  certificate facts of Thm/AcCert.lean once and for all. The three layers are stated separately:
-    (a) `failure_links_correct`   failure link = longest proper suffix that is a path; match list = own entries ++ list of
-                                  the failure state;
-    (b) `optimisation_keeps_delta` the shortened failure links lead, for every byte the state has no transition on, to
-                                  the same longest path-suffix (the transition function δ is unchanged);
-    (c) `packed_lookup`           the lookup loop of scanner.c on the packed table (first-fit slots, owner-offset tags)
-                                  computes δ: slots never overlap, growth keeps the invariant.
-  Hypotheses, all necessary: atoms are non-empty (a zero-length atom puts matches into the root state; the model
-  implements that path too and it is compared with the code, but the theorem does not cover it); fewer than 2^32 atoms
-  (match-table entries are 32-bit); `build` returns `some` (it returns `none` exactly when the C code's
-  `assert(slot + 257 < YR_AC_MAX_TRANSITION_TABLE_SIZE)` fails).
-  The model is tied to the code by comparing, token for token, the tables it builds with the tables of the real automaton
-  for every generated rule set (vf/acbuild.py).
+  What is proved, for EVERY list of atoms (any bytes, any lengths INCLUDING zero, any number < 2^32, duplicates allowed, any
+  insertion order) and EVERY buffer:
+    `build_scan_exact`  the candidate SEQUENCE the scan of the built tables produces is `expectedScan atoms buf`: position by
+                        position (0 … |buf|; the last one is the pass after the loop), at each position the atoms ending
+                        there, longest first, among equal atoms the newest first, zero-length atoms (root matches) last, each
+                        handed over iff `backtrack ≤ position` — order included;
+    `build_sound`       as a set: exactly the occurrences of the atoms (`expectedAt`);
+    `root_matches_everywhere`  a zero-length atom is reported at every position 0 … |buf|;
+    `build_cert`, `build_candsOK`  the certificate facts / the per-string contract of C01/C05.
+  The three layers of the construction are stated separately:
+    (a) `failure_links_correct`    failure link = longest proper suffix that is a path; match list = `specList` of the path;
+    (b) `optimisation_keeps_delta` the shortened failure links keep the transition function δ;
+    (c) `packed_lookup`            the lookup loop on the packed table (first-fit slots, owner-offset tags, growth) computes δ.
+  `build_some` discharges the hypothesis `build atoms = some T` for rule sets of bounded size.
+  Hypotheses: a zero-length atom has backtrack 0 (what atoms.c produces; with a positive backtrack the C loop
+  `match->backtrack > 0` would link the root's list into itself); fewer than 2^32 atoms (32-bit match-table entries);
+  `build` returns `some` (`none` exactly when `assert(slot + 257 < YR_AC_MAX_TRANSITION_TABLE_SIZE)` fails).
+  Ties to the code (vf/acbuild.py): the built tables EQUAL the real tables token for token, and the real candidate
+  sequence (hook yr_verif_on_candidate) EQUALS `scan` of the built tables and `expectedScan`, order included.
 -/
 import YaraModel.Lemmas.AcBuildFinal
+import YaraModel.Lemmas.AcBuildSome
 import YaraModel.Lemmas.AcBuildCands
 namespace YaraModel.AC.Build
 open YaraModel.Text YaraModel.AC
 
 /-- **(a) failure links and match lists** after `_yr_ac_create_failure_links`: for every non-root state `x` the failure
     link is a state whose path is the longest proper suffix of `x`'s path that is a path of the trie, and the match list
-    of `x` is the entries of the atoms equal to its path (newest first) followed by the match list of that state. -/
-theorem failure_links_correct (atoms : List (Nat × Atom)) (hne : ∀ a ∈ atoms, a.2.bytes ≠ [])
-    (x : Nat) (h0 : 0 < x) (hx : x < (addAtoms atoms).states.size) :
-    let A := createFailureLinks (addAtoms atoms)
-    (A.st x).failure < A.states.size ∧
-    (A.st (A.st x).failure).path = lsuf (pathsOf A) (A.st x).path.tail ∧
-    ChainSeg A.pool (A.st x).matchesRef (ownIdx atoms (A.st x).path) (A.st (A.st x).failure).matchesRef := by
-  intro A
-  obtain ⟨_, h2⟩ := createFailureLinks_I2 (addAtoms_P1 atoms) hne
-  obtain ⟨f1, f2⟩ := h2.fail x ⟨h0, hx⟩
-  obtain ⟨f, g1, _, g3, g4⟩ := h2.ms.matched x ⟨h0, hx⟩
-  have : f = (A.st x).failure := h2.ms.trie.path_inj _ _ g1 f1 (by rw [g3, f2])
-  subst this
-  exact ⟨f1, f2, g4⟩
+    of every state is null-terminated and visits exactly `specList` of its path: the entries of the atoms that are suffixes
+    of the path, longest first, among equal atoms the newest first, the root's (zero-length) last. -/
+theorem failure_links_correct (atoms : List (Nat × Atom)) (hbt : ∀ a ∈ atoms, a.2.bytes = [] → a.2.backtrack = 0)
+    (x : Nat) (hx : x < (addAtoms atoms).states.size) :
+    (0 < x → ((createFailureLinks (addAtoms atoms)).st x).failure < (createFailureLinks (addAtoms atoms)).states.size ∧
+      ((createFailureLinks (addAtoms atoms)).st ((createFailureLinks (addAtoms atoms)).st x).failure).path =
+        lsuf (pathsOf (createFailureLinks (addAtoms atoms))) ((createFailureLinks (addAtoms atoms)).st x).path.tail) ∧
+    ChainSeg (createFailureLinks (addAtoms atoms)).pool ((createFailureLinks (addAtoms atoms)).st x).matchesRef
+      (specList atoms ((createFailureLinks (addAtoms atoms)).st x).path) 0 := by
+  obtain ⟨s2, h2⟩ := createFailureLinks_I2 (addAtoms_P1 atoms) hbt
+  generalize createFailureLinks (addAtoms atoms) = A at s2 h2 ⊢
+  have h2' : I2 A atoms (allLk A) (allLk A) := by
+    apply h2.congr_lk
+    · intro y; unfold allLk; rw [s2.1]
+    · intro y; unfold allLk; rw [s2.1]
+  have hx' : x < A.states.size := by rw [s2.1]; exact hx
+  exact ⟨fun h0 => h2.fail x ⟨h0, hx⟩, (MF_of_I2 h2').chain x hx'⟩
 
 /-- **(b) the optimisation keeps the transition function**: after `_yr_ac_optimize_failure_links` the (possibly
     shortened) failure link of every non-root state `x` leads to a strictly shallower state from which every byte `c`
     that `x` has no transition on reaches the same longest path-suffix as from `x`. -/
-theorem optimisation_keeps_delta (atoms : List (Nat × Atom)) (hne : ∀ a ∈ atoms, a.2.bytes ≠ [])
+theorem optimisation_keeps_delta (atoms : List (Nat × Atom)) (hbt : ∀ a ∈ atoms, a.2.bytes = [] → a.2.backtrack = 0)
     (x : Nat) (h0 : 0 < x) (hx : x < (addAtoms atoms).states.size) :
     let A := optimizeFailureLinks (createFailureLinks (addAtoms atoms))
     (A.st x).failure < A.states.size ∧ (A.st (A.st x).failure).depth < (A.st x).depth ∧
     ∀ c : UInt8, (∀ n ∈ (A.st x).children, (A.st n).input ≠ c) →
       lsuf (pathsOf A) ((A.st (A.st x).failure).path ++ [c]) = lsuf (pathsOf A) ((A.st x).path ++ [c]) := by
   intro A
-  obtain ⟨s2, h2⟩ := createFailureLinks_I2 (addAtoms_P1 atoms) hne
-  have h2' : I2 (createFailureLinks (addAtoms atoms)) atoms (allLk (createFailureLinks (addAtoms atoms))) := by
+  obtain ⟨s2, h2⟩ := createFailureLinks_I2 (addAtoms_P1 atoms) hbt
+  have h2' : I2 (createFailureLinks (addAtoms atoms)) atoms (allLk (createFailureLinks (addAtoms atoms)))
+      (allLk (createFailureLinks (addAtoms atoms))) := by
     apply h2.congr_lk
-    intro y; unfold allLk; rw [s2.1]
+    · intro y; unfold allLk; rw [s2.1]
+    · intro y; unfold allLk; rw [s2.1]
   obtain ⟨s3, h3⟩ := optimizeFailureLinks_I3 (I3_of_I2 h2')
   exact h3.fail x h0 (by rw [s3.1, s2.1]; exact hx)
 
 /-- **(c) the packed lookup**: on the tables produced by `_yr_ac_build_transition_table` (first-fit slots, growth by 257),
     the scanner's lookup loop started in the slot of a state with path `p` and fed byte `c` ends in the slot of the state
     whose path is the longest suffix of `p ++ [c]` that is a path. -/
-theorem packed_lookup (atoms : List (Nat × Atom)) (hne : ∀ a ∈ atoms, a.2.bytes ≠ []) (T : Tables)
+theorem packed_lookup (atoms : List (Nat × Atom)) (hbt : ∀ a ∈ atoms, a.2.bytes = [] → a.2.backtrack = 0) (T : Tables)
     (hb : build atoms = some T) :
     ∃ (slotOf : Bytes → Nat) (P : List Bytes), slotOf [] = 0 ∧ [] ∈ P ∧ PrefixClosed P ∧ (∀ a ∈ atoms, a.2.bytes ∈ P) ∧
       ∀ p ∈ P, ∀ c : UInt8, delta T (fuelOf T) (slotOf p) (c.toNat + 1) = slotOf (lsuf P (p ++ [c])) := by
-  obtain ⟨A, ord, hB⟩ := compile_built hne
+  obtain ⟨A, ord, hB⟩ := compile_built hbt
   unfold build at hb
   simp only at hb
   split at hb
@@ -89,7 +98,7 @@ theorem packed_lookup (atoms : List (Nat × Atom)) (hne : ∀ a ∈ atoms, a.2.b
       simp only [this]
       exact hB.i4.root_slot
     · intro a ha
-      obtain ⟨s, hs, hp⟩ := hB.i3.ms.atoms_in a ha
+      obtain ⟨s, hs, hp⟩ := hB.i3.mf.atoms_in a ha
       exact mem_pathsOf.mpr ⟨s, hs, hp⟩
     · have hfind : ∀ x, x < A.states.size → (List.range A.states.size).find? (fun y => (A.st y).path == (A.st x).path) = some x := by
         intro x hx
@@ -112,9 +121,9 @@ theorem packed_lookup (atoms : List (Nat × Atom)) (hne : ∀ a ∈ atoms, a.2.b
 /-- **The certificate facts hold for every built automaton** (what `certOK` checks per rule set in Thm/AcCert.lean, here
     for all atom lists at once): there is a slot ↦ path map for which the root, closure, step, match-list and atom
     conditions of `Cert` hold. -/
-theorem build_cert (atoms : List (Nat × Atom)) (hne : ∀ a ∈ atoms, a.2.bytes ≠ []) (hlen : atoms.length < 2 ^ 32)
+theorem build_cert (atoms : List (Nat × Atom)) (hbt : ∀ a ∈ atoms, a.2.bytes = [] → a.2.backtrack = 0) (hlen : atoms.length < 2 ^ 32)
     (T : Tables) (hb : build atoms = some T) : ∃ paths, Cert T atoms paths := by
-  obtain ⟨A, ord, hB⟩ := compile_built hne
+  obtain ⟨A, ord, hB⟩ := compile_built hbt
   unfold build at hb
   simp only at hb
   split at hb
@@ -123,30 +132,87 @@ theorem build_cert (atoms : List (Nat × Atom)) (hne : ∀ a ∈ atoms, a.2.byte
     exact ⟨slotPaths A (compile (addAtoms atoms)), hb ▸ hB.cert hok hlen⟩
   · cases hb
 
-/-- **Correctness of the construction**: for EVERY list of non-empty atoms and EVERY buffer, the scan over the tables
-    built by the modelled `yr_ac_add_string`* ; `yr_ac_compile` reports exactly the occurrences of the atoms: a candidate
+/-- **Correctness of the construction**: for EVERY list of atoms and EVERY buffer, the scan over the tables
+    built by the modelled `yr_ac_add_string`* ; `yr_ac_compile` reports exactly the occurrences of the atoms (zero-length atoms
+    included: they end everywhere): a candidate
     `(string idx, offset, backtrack)` is reported iff some atom of that string ends at some position `k` of the buffer
     (and fits), with the offset and backtrack of that atom. -/
-theorem build_sound (atoms : List (Nat × Atom)) (hne : ∀ a ∈ atoms, a.2.bytes ≠ []) (hlen : atoms.length < 2 ^ 32)
+theorem build_sound (atoms : List (Nat × Atom)) (hbt : ∀ a ∈ atoms, a.2.bytes = [] → a.2.backtrack = 0) (hlen : atoms.length < 2 ^ 32)
     (T : Tables) (hb : build atoms = some T) (buf : Bytes) (x : Nat × Nat × Nat) :
     x ∈ scan T buf ↔ ∃ k, k ≤ buf.length ∧ x ∈ expectedAt atoms (buf.take k) := by
-  obtain ⟨paths, h⟩ := build_cert atoms hne hlen T hb
+  obtain ⟨paths, h⟩ := build_cert atoms hbt hlen T hb
   have := scanFrom_mem h buf [] 0 (by simpa [lsuf] using h.root) x
   simpa [scan] using this
+
+/-- **The scan of the built automaton, as a sequence** (order included): exactly `expectedScan atoms buf` — for every position
+    `k = 0 … |buf|` in turn (the scanner reports the state's matches before consuming byte `k`, and once more after the last
+    byte), the atoms that are suffixes of the first `k` bytes, longest first, among atoms with equal bytes the one inserted
+    last first, zero-length atoms last; each as (string idx, k − backtrack, backtrack), dropped iff `backtrack > k`. -/
+theorem build_scan_exact (atoms : List (Nat × Atom)) (hbt : ∀ a ∈ atoms, a.2.bytes = [] → a.2.backtrack = 0)
+    (hlen : atoms.length < 2 ^ 32) (T : Tables) (hb : build atoms = some T) (buf : Bytes) :
+    scan T buf = expectedScan atoms buf := by
+  obtain ⟨A, ord, hB⟩ := compile_built hbt
+  unfold build at hb
+  simp only at hb
+  split at hb
+  · rename_i hok
+    simp only [Option.some.injEq] at hb
+    subst hb
+    have := hB.scanFrom_eq hok hlen buf [] 0 hB.trie.size_pos (by rw [hB.trie.root_path]; rfl)
+    rw [hB.i4.root_slot] at this
+    simpa [scan, expectedScan, tablesOf] using this
+  · cases hb
+
+/-- **Zero-length atoms are reported everywhere**: a string without an extractable atom (its zero-length atom sits in the
+    root state) yields a candidate at EVERY position `0 … |buf|` of every buffer, whatever else is in the automaton. -/
+theorem root_matches_everywhere (atoms : List (Nat × Atom)) (hbt : ∀ a ∈ atoms, a.2.bytes = [] → a.2.backtrack = 0)
+    (hlen : atoms.length < 2 ^ 32) (T : Tables) (hb : build atoms = some T) (sa : Nat × Atom) (hsa : sa ∈ atoms)
+    (hz : sa.2.bytes = []) (buf : Bytes) (k : Nat) (hk : k ≤ buf.length) : (sa.1, k, 0) ∈ scan T buf := by
+  apply (build_sound atoms hbt hlen T hb buf _).mpr
+  refine ⟨k, hk, ?_⟩
+  unfold expectedAt
+  simp only [List.mem_filterMap]
+  refine ⟨sa, hsa, ?_⟩
+  have h0 := hbt sa hsa hz
+  simp [hz, h0, Nat.min_eq_left hk]
 
 /-- **The automaton contract of C01/C05 for every compiled rule set** (`CandsOK`, cf. `candsOK_of_cert`): whatever else
     shares the automaton, if the atoms inserted for string `sidx` are (as a set) `atomsOf w m s`, then on EVERY buffer the
     candidates the built automaton reports for that string are exactly the occurrences of its atoms. -/
-theorem build_candsOK (atoms : List (Nat × Atom)) (hne : ∀ a ∈ atoms, a.2.bytes ≠ []) (hlen : atoms.length < 2 ^ 32)
+theorem build_candsOK (atoms : List (Nat × Atom)) (hbt : ∀ a ∈ atoms, a.2.bytes = [] → a.2.backtrack = 0) (hlen : atoms.length < 2 ^ 32)
     (T : Tables) (hb : build atoms = some T) (sidx w : Nat) (m : Mods) (s : Bytes)
     (hat : ∀ a, (sidx, a) ∈ atoms ↔ a ∈ atomsOf w m s) (buf : Bytes) :
     CandsOK w m s buf ((scan T buf).filterMap fun x => if x.1 = sidx then some (x.2.1, x.2.2) else none) :=
-  candsOK_of_exact T atoms buf (build_sound atoms hne hlen T hb buf) sidx w m s hat
+  candsOK_of_exact T atoms buf (build_sound atoms hbt hlen T hb buf) sidx w m s hat
+
+/-- **The size assertion cannot fail below 32 638 states**: `build` returns tables whenever the atoms have at most 32 637
+    bytes in total (each byte adds at most one state to the root; every popped state makes the tables grow by at most 257
+    entries, so every slot stays below `YR_AC_MAX_TRANSITION_TABLE_SIZE - 257`). Discharges the hypothesis
+    `build atoms = some T` of the theorems above (and of Thm/C01EndToEnd, Thm/C05EndToEnd) for rule sets of that size. -/
+theorem build_some (atoms : List (Nat × Atom)) (h : (atoms.map fun a => a.2.bytes.length).sum ≤ 32637) :
+    ∃ T, build atoms = some T := by
+  have h1 := addAtoms_size atoms
+  have h2 : (addAtoms atoms).states.size ≤ 32638 := by omega
+  have h3 : 257 * (addAtoms atoms).states.size ≤ 257 * 32638 := Nat.mul_le_mul_left _ h2
+  have hok := compile_ok atoms (by
+    have e : 257 * 32638 = 8387966 := by decide
+    rw [e] at h3
+    exact Nat.lt_of_le_of_lt (Nat.add_le_add_left h3 512) (by decide))
+  unfold build
+  simp only [hok, if_true]
+  exact ⟨_, rfl⟩
 
 /-- non-vacuity: a small rule set with a shared prefix, an atom that is a suffix of another, a duplicate and the bytes
     0x00 / 0xFF builds, and its scan reports the expected candidates in arrival order -/
 example : (build [(0, ⟨[0x61, 0x62], 0⟩), (1, ⟨[0x62], 1⟩), (2, ⟨[0x61, 0x00, 0xFF], 2⟩), (3, ⟨[0x62], 0⟩)]).map
     (fun T => scan T [0x7A, 0x61, 0x62, 0x61, 0x00, 0xFF]) =
     some [(0, 1, 2), (3, 2, 1), (1, 1, 2), (2, 1, 5)] := by decide +kernel
+
+/-- non-vacuity with a zero-length atom (string 9): it is reported at every position, after the longer atoms -/
+example : (build [(0, ⟨[0x61, 0x62], 0⟩), (9, ⟨[], 0⟩), (1, ⟨[0x62], 1⟩)]).map (fun T => scan T [0x61, 0x62]) =
+    some [(9, 0, 0), (9, 1, 0), (0, 0, 2), (1, 0, 2), (9, 2, 0)] := by decide +kernel
+
+example : expectedScan [(0, ⟨[0x61, 0x62], 0⟩), (9, ⟨[], 0⟩), (1, ⟨[0x62], 1⟩)] [0x61, 0x62] =
+    [(9, 0, 0), (9, 1, 0), (0, 0, 2), (1, 0, 2), (9, 2, 0)] := by decide +kernel
 
 end YaraModel.AC.Build
